@@ -7,5 +7,6 @@ import (
 func main() {
 	hlib.Main("h1", map[string]hlib.Scenario{
 		"C03": scenarioC03,
+		"C04": scenarioC04,
 	})
 }
